@@ -1,0 +1,90 @@
+//go:build verif
+
+package sse
+
+import (
+	"io"
+	"math/rand"
+	"time"
+
+	"github.com/tmaxmax/go-sse/internal/parser"
+)
+
+// VerifHook, when set, is called at the named points of Joe's code.
+// It is only present in builds with the "verif" tag and is used by the
+// verification harness to record event traces and perturb schedules.
+var VerifHook func(point string, a, b any)
+
+func verifHook(point string, a, b any) {
+	if h := VerifHook; h != nil {
+		h(point, a, b)
+	}
+}
+
+// Re-exports of internal/parser for the verification harness,
+// which lives in another module and cannot import internal packages.
+type (
+	VerifField       = parser.Field
+	VerifFieldParser = parser.FieldParser
+	VerifParser      = parser.Parser
+)
+
+func VerifNewlineIndex(s string) (int, int)            { return parser.NewlineIndex(s) }
+func VerifNextChunk(s string) (string, string, bool)   { return parser.NextChunk(s) }
+func VerifNewFieldParser(s string) *parser.FieldParser { return parser.NewFieldParser(s) }
+func VerifNewParser(r io.Reader) *parser.Parser        { return parser.New(r) }
+func VerifSplitFunc(data []byte, atEOF bool) (int, []byte, error) {
+	return parser.VerifSplitFunc(data, atEOF)
+}
+
+// Backoff internals.
+
+func VerifMergeDefaults(c *Client) { mergeDefaults(c) }
+
+func VerifNextInterval(jitter float64, src rand.Source, current time.Duration) time.Duration {
+	return nextInterval(jitter, rand.New(src), current)
+}
+
+func VerifGrowInterval(current, maxInterval time.Duration, mul float64) time.Duration {
+	return growInterval(current, maxInterval, mul)
+}
+
+// VerifBackoffController wraps the unexported backoffController.
+type VerifBackoffController struct{ c backoffController }
+
+func VerifNewBackoffController(b *Backoff, src rand.Source) *VerifBackoffController {
+	c := b.new()
+	c.rng = rand.New(src)
+	return &VerifBackoffController{c: c}
+}
+
+// SetElapsed moves the start of the current retry series d into the past.
+func (v *VerifBackoffController) SetElapsed(d time.Duration) { v.c.start = time.Now().Add(-d) }
+func (v *VerifBackoffController) Next() (time.Duration, bool) {
+	return v.c.next()
+}
+func (v *VerifBackoffController) Reset(d time.Duration)   { v.c.reset(d) }
+func (v *VerifBackoffController) Interval() time.Duration { return v.c.interval }
+func (v *VerifBackoffController) NumRetries() int         { return v.c.numRetries }
+
+// Replayer internals: every slot of the backing array, live or not.
+
+func VerifFiniteSlots(f *FiniteReplayer) (slots []*Message, head, tail, count int) {
+	for _, e := range f.buf.buf {
+		slots = append(slots, e.message)
+	}
+	return slots, f.buf.head, f.buf.tail, f.buf.count
+}
+
+func VerifValidSlots(v *ValidReplayer) (slots []*Message, exps []time.Time, head, tail, count int) {
+	for _, e := range v.messages.buf {
+		slots = append(slots, e.message)
+		exps = append(exps, e.exp)
+	}
+	return slots, exps, v.messages.head, v.messages.tail, v.messages.count
+}
+
+// Connection internals.
+
+func (c *Connection) VerifLastEventID() string { return c.lastEventID }
+func (c *Connection) VerifDispatch(ev Event)   { c.dispatch(ev) }
